@@ -147,6 +147,14 @@ def zdtDiffFull (since : Bool) (tz : TZ) (ns1 ns2 : Int) (raw : RawOptions) : Ou
     let res ← durFromNormalized date td .hour
     pure (if since then res.negated else res)
 
+/-- `ZonedDateTime::until / since` when the other value may live in another time zone: with a time largest unit the
+    zones do not matter; with a date largest unit different zones are a RangeError (whatever the instants). -/
+def zdtDiffFullZ (since : Bool) (tz : TZ) (sameZone : Bool) (ns1 ns2 : Int) (raw : RawOptions) : Out Dur := do
+  let o ← fromDiffSettings raw since .dateTime .hour .nanosecond
+  if o.largest.isTimeUnit then zdtDiffTime since ns1 ns2 o
+  else if !sameZone then .err .range
+  else zdtDiffFull since tz ns1 ns2 raw
+
 /-- `ZonedDateTime::diff_with_total` -/
 def zdtDiffWithTotal (tz : TZ) (ns1 ns2 : Int) (unit : TUnit) : Out F64.Dyadic :=
   if unit.isTimeUnit then do
